@@ -286,6 +286,8 @@ def finding_key(o, why):
 
 
 def report(ctx, o, why):
+    if any(fd["key"] == finding_key(o, why) for fd in ctx.findings):
+        return      # one replay file per kind of failure is enough
     tag = "%s-%d" % (o["kind"], o["i"])
     path = ctx.write_replay(tag, {
         "property": "C05", "what": why, "case": describe(o),
